@@ -1,6 +1,7 @@
 import Driver.Util
 import Driver.C10
 import Driver.C05
+import Driver.Enable
 open Driver
 
 def dispatch (line : String) : String :=
@@ -8,6 +9,8 @@ def dispatch (line : String) : String :=
   | "reader" :: args => C10.reader args
   | "comment" :: args => C10.comment args
   | "exit" :: args => C05.exit args
+  | "checks" :: args => EnableOp.checks args
+  | "merge" :: args => EnableOp.merge args
   | _ => "bad-op"
 
 partial def loop (h : IO.FS.Stream) (out : IO.FS.Stream) : IO Unit := do
